@@ -26,17 +26,30 @@ Definition default_max : Z := 10000000000.          (* 10 s *)
 (* ForAttempt(n) with Jitter = false.  minf * factor^n is exact in float64 for factor = 2 (a
    power-of-two scaling) until it overflows to +Inf, which lands in the same "> maxInt64" branch
    as the exact value does; other factors are outside what this model claims. *)
+(* the tail of ForAttempt: overflow guard, then "keep within bounds" *)
+Definition backoff_clamp (mn' mx' durf : Z) : Z :=
+  if max_int64_f <? durf then mx'
+  else if durf <? mn' then mn'
+  else if mx' <? durf then mx'
+  else durf.
+
+Definition eff_min (mn : Z) : Z := if mn <=? 0 then default_min else mn.
+Definition eff_max (mx : Z) : Z := if mx <=? 0 then default_max else mx.
+
 Definition backoff_dur (mn mx factor : Z) (n : nat) : Z :=
-  let mn' := if mn <=? 0 then default_min else mn in
-  let mx' := if mx <=? 0 then default_max else mx in
+  let mn' := eff_min mn in
+  let mx' := eff_max mx in
   if mx' <=? mn' then mx'
   else
     let f := if factor <=? 0 then 2 else factor in
-    let durf := f64_of_Z mn' * f ^ (Z.of_nat n) in
-    if max_int64_f <? durf then mx'
-    else if durf <? mn' then mn'
-    else if mx' <? durf then mx'
-    else durf.
+    backoff_clamp mn' mx' (f64_of_Z mn' * f ^ (Z.of_nat n)).
+
+(* Jitter = true: durf is replaced by rand*(durf-minf)+minf before the same tail.  The model does not
+   say which value the random product takes: [d] is ANY value. *)
+Definition backoff_dur_jitter (mn mx : Z) (d : Z) : Z :=
+  let mn' := eff_min mn in
+  let mx' := eff_max mx in
+  if mx' <=? mn' then mx' else backoff_clamp mn' mx' d.
 
 Record cfg := mkcfg { cmin : Z; cmax : Z; cfactor : Z }.
 Definition dur (c : cfg) (n : nat) : Z := backoff_dur (cmin c) (cmax c) (cfactor c) n.
@@ -304,4 +317,32 @@ Definition pump_step (p : pumps) (x : pstep) : pumps :=
   end.
 
 Definition pump_run (p : pumps) (xs : list pstep) : pumps := fold_left pump_step xs p.
+
+(* The wrappers put further single-goroutine forwarders in front of / behind the two pumps:
+   pkg/client: Send -> r.Out -> connection and connection -> r.In -> Receive;  pkg/status adds
+   Receive -> Status;  rwc: hub -> RelayOut -> r.Out and r.In -> RelayIn -> hub;  file: r.In ->
+   WsMessageToLine -> Tee.  A pipeline is a list of queues, queue 0 the source; step i lets the
+   forwarder between queue i and queue i+1 move one message (nothing happens if queue i is empty or
+   there is no such forwarder).  Any interleaving of the forwarders is a list of such steps. *)
+Fixpoint pipe_step (qs : list (list N)) (i : nat) : list (list N) :=
+  match qs, i with
+  | (m :: q0) :: q1 :: r, O => q0 :: (q1 ++ [m]) :: r
+  | q0 :: r, S i' => q0 :: pipe_step r i'
+  | _, _ => qs
+  end.
+Definition pipe_run (qs : list (list N)) (xs : list nat) : list (list N) := fold_left pipe_step xs qs.
+(* everything in the pipeline, oldest first: the sink, then what is in flight, then the source *)
+Definition pipe_contents (qs : list (list N)) : list N := concat (rev qs).
+Definition pipe_init (stages : nat) (input : list N) : list (list N) := input :: repeat [] stages.
+
+(* pkg/status: its goroutine takes the next message from Receive, json-decodes it and forwards the
+   reports on Status - or logs and drops a message that does not decode ([ok] is the decoder's verdict,
+   an oracle).  One step = one message taken. *)
+Definition filt_step (ok : N -> bool) (st : list N * list N) : list N * list N :=
+  match fst st with
+  | [] => st
+  | m :: r => (r, if ok m then snd st ++ [m] else snd st)
+  end.
+Fixpoint filt_run (ok : N -> bool) (n : nat) (st : list N * list N) : list N * list N :=
+  match n with O => st | S n' => filt_run ok n' (filt_step ok st) end.
 Definition pumps_init (sent offered : list N) : pumps := mkpumps sent [] offered [].
